@@ -121,6 +121,7 @@ func init() {
 		}
 		return nil
 	}
+	intrinsics["vAssertModel"] = intrinsics["vAssert"]
 	intrinsics["vReach"] = func(in *Interp, fn *ssa.Function, a []Value) Value {
 		label := constStr(in, a[0], "vReach label")
 		c := a[1].(*smt.Term)
